@@ -130,6 +130,12 @@ def check(run, project):
                 if tnode is None:
                     raise AnalysisError(f"C07: mode test at {mod.relpath}:{stmt.lineno} not found in the CFG")
                 bound = e in rd.must_defined()[tnode.id]
+                # (the mode test may stand under a test that the error exists: `if e is not None: if strict: raise e ...`)
+                anc, child = stmt._parent, stmt
+                while anc is not None and anc is not fn and not conj_form:
+                    if isinstance(anc, ast.If) and child in anc.body and error_test(anc.test, e) is True:
+                        conj_form = "guarded"
+                    anc, child = getattr(anc, "_parent", None), anc
                 kinds = set()
                 for r in rd.value_exprs(tnode, e):
                     if r[0] == "handler":
@@ -144,7 +150,7 @@ def check(run, project):
                        f"{q} L{n.lineno}: error object `{e}` is bound on every path to the mode test",
                        f"`{e}` is not an already constructed / caught error on every path to the test ({sorted(kinds)})",
                        module=mod, node=stmt, func=q, construct=norm(stmt.test) + " [error binding]")
-                other = [v for v in (stmt.test.values if isinstance(stmt.test, ast.BoolOp) and not conj_form else []) if v is not n]
+                other = [v for v in (stmt.test.values if isinstance(stmt.test, ast.BoolOp) and conj_form is not True else []) if v is not n]
                 # the extra disjunct may only inspect the caught error (ownership test), not input or mode
                 for v in other:
                     names = {x.id for x in ast.walk(v) if isinstance(x, ast.Name)}
@@ -198,7 +204,9 @@ def check(run, project):
         run.ob("NI-3", id(c) in reached_warnings, f"{q} L{c.lineno}: WarningEvent is the warn branch of a mode test",
                "a WarningEvent is constructed outside the false continuation of a mode test (a warning strict mode has no error for)",
                module=mod, node=c, func=q, construct=norm(c))
-    run.ob("NI-3", len(warning_sites) == len(mode_tests), "one WarningEvent site per mode test",
+    # (each site is the warn branch of a mode test and each mode test reaches a warning - above; two tests of the same
+    # decision may share one site, e.g. an early strict raise and a late report of the same error)
+    run.ob("NI-3", len(warning_sites) <= len(mode_tests), "no more WarningEvent sites than mode tests",
            f"{len(warning_sites)} WarningEvent construction sites vs {len(mode_tests)} mode tests")
     run.cover(mode_tests=len(mode_tests), warning_sites=len(warning_sites), functions_with_mode=len(fm))
     run.floor("NI-2", 30, "threaded call sites")
